@@ -8,6 +8,7 @@ pub fn units() -> Vec<Unit> {
     vec![
         Unit {
             name: "pkg_width",
+            toggles: vec![(1, 2, 1)],
             has_tests: false,
             slots: vec![
                 Slot {
@@ -39,6 +40,7 @@ pub fn units() -> Vec<Unit> {
         },
         Unit {
             name: "ports",
+            toggles: vec![(0, 1, 3)],
             has_tests: false,
             slots: vec![
                 Slot {
@@ -63,6 +65,7 @@ pub fn units() -> Vec<Unit> {
         },
         Unit {
             name: "types",
+            toggles: vec![(0, 1, 3)],
             has_tests: false,
             slots: vec![
                 Slot {
@@ -87,6 +90,7 @@ pub fn units() -> Vec<Unit> {
         },
         Unit {
             name: "generic",
+            toggles: vec![(0, 2, 2)],
             has_tests: false,
             slots: vec![
                 Slot {
@@ -116,6 +120,7 @@ pub fn units() -> Vec<Unit> {
         },
         Unit {
             name: "iface",
+            toggles: vec![(0, 1, 3)],
             has_tests: false,
             slots: vec![
                 Slot {
@@ -132,12 +137,14 @@ pub fn units() -> Vec<Unit> {
                         "module BusUser (\n    bus: modport BusIf::master,\n) {\n    assign bus.valid = 1;\n    assign bus.data  = 0;\n}\n",
                         "module BusUser (\n    bus: modport BusIf::master,\n) {\n    assign bus.valid = 0;\n    assign bus.data  = 5;\n}\n",
                         "module BusUser (\n    bus: modport BusIf::slave,\n    o  : output  logic<8>    ,\n) {\n    assign o = if bus.valid ? bus.data : 0;\n}\n",
+                        "module BusUser (\n    o: output logic<8>,\n) {\n    assign o = 0;\n}\n",
                     ],
                 },
             ],
         },
         Unit {
             name: "func",
+            toggles: vec![(0, 1, 2)],
             has_tests: false,
             slots: vec![
                 Slot {
@@ -160,6 +167,7 @@ pub fn units() -> Vec<Unit> {
         },
         Unit {
             name: "svmember",
+            toggles: vec![],
             has_tests: false,
             slots: vec![
                 Slot {
@@ -180,6 +188,7 @@ pub fn units() -> Vec<Unit> {
         },
         Unit {
             name: "diag",
+            toggles: vec![],
             has_tests: false,
             slots: vec![Slot {
                 path: "src/diag.veryl",
@@ -194,6 +203,7 @@ pub fn units() -> Vec<Unit> {
         },
         Unit {
             name: "pathdep",
+            toggles: vec![(0, 1, 1)],
             has_tests: false,
             slots: vec![
                 Slot {
@@ -216,6 +226,7 @@ pub fn units() -> Vec<Unit> {
         },
         Unit {
             name: "examples",
+            toggles: vec![(0, 1, 2)],
             has_tests: false,
             slots: vec![
                 Slot {
@@ -230,12 +241,14 @@ pub fn units() -> Vec<Unit> {
                     variants: vec![
                         "module ExTop (\n    i_a: input  logic<3>,\n    o_y: output logic<3>,\n) {\n    inst u: ExLib (\n        i_a: i_a,\n        o_y: o_y,\n    );\n}\n",
                         "module ExTop (\n    i_a: input  logic<3>,\n    o_y: output logic<3>,\n) {\n    let unused_ex: logic = 0;\n    inst u: ExLib (\n        i_a: i_a,\n        o_y: o_y,\n    );\n}\n",
+                        "module ExTop (\n    i_a: input  logic<3>,\n    o_y: output logic<3>,\n) {\n    assign o_y = i_a;\n}\n",
                     ],
                 },
             ],
         },
         Unit {
             name: "attrs",
+            toggles: vec![],
             has_tests: false,
             slots: vec![
                 Slot {
@@ -259,6 +272,7 @@ pub fn units() -> Vec<Unit> {
         },
         Unit {
             name: "tests",
+            toggles: vec![],
             has_tests: true,
             slots: vec![
                 Slot {
